@@ -1,7 +1,7 @@
 """C14 — mirrors and subscriptions never diverge silently."""
 import mir
 from mir import callee
-from common import controlling_edges, switch_expr, switch_meaning, const_value, arith
+from common import *  # noqa: F401,F403
 from robs_common import *  # noqa: F401,F403
 
 EXPLANATION = (
@@ -79,7 +79,7 @@ def r14_2(ck, F):
             oks = [(bb, i) for bb, i, v in b.result_stores("Ok")]
             ok = bool(oks)
             for bb, i in oks:
-                ce = [(switch_expr(b, s), switch_meaning(b, s, v)) for s, tb, v in controlling_edges(b, bb)]
+                ce = conds(b, bb)
                 ok = ok and any(e[0] == "discr" and mir.last_field(e[1]) == "error" and m_ == "None" for e, m_ in ce)
             ck.expect(ok, f"{mirrored.split('::')[-1]}::{m}", "Ok only when error is None",
                       f"{mirrored}::{m} can return Ok although an error is stored", b.loc(0))
@@ -181,11 +181,11 @@ def r14_5(ck, F):
             ck.expect(idx_ok and bool(incs) and p is None, "list::task#push-advances",
                       "Push(buffer[pos]) is followed by pos += 1 before any suspension",
                       "position not advanced by exactly one after sending an element (or element not buffer[pos])", x.loc(bb))
-            ce = [(switch_expr(x, s), switch_meaning(x, s, v)) for s, tb, v in controlling_edges(x, bb)]
+            ce = conds(x, bb)
             ck.expect(any(c[0] == "bin" and c[1] == "Lt" and "pos" in mir.field_leaves(c[2]) and m is True for c, m in ce),
                       "list::task#push-guard", "Push only while pos < len", "Push not guarded by pos < len", x.loc(bb))
         elif e[2] == "Done":
-            ce = [(switch_expr(x, s), switch_meaning(x, s, v)) for s, tb, v in controlling_edges(x, bb)]
+            ce = conds(x, bb)
             ck.expect(any(c[0] == "bin" and c[1] == "Lt" and "pos" in mir.field_leaves(c[2]) and m is False for c, m in ce),
                       "list::task#done-at-end", "Done only when pos has reached len",
                       "Done can be sent before all elements were sent", x.loc(bb))
